@@ -284,7 +284,24 @@ def main(argv=None):
         validated += int(r.get("samples_validated", 0))
         for s in (r.get("samples") or [])[:1]:
             if len(samples_out) < 12:
-                samples_out.append({"harness": lab, "args": s})
+                rec = {"harness": lab, "args": s}
+                fn = (getattr(mod, "DIMS", None) or {}).get(r["job"]["func"])
+                if fn is not None and isinstance(s, list) and len(s) == 1 and isinstance(s[0], int):
+                    # single-index enumeration: write the decoded point out, not just its index
+                    try:
+                        dims = fn(r["job"]["part"])
+                        i = s[0]
+                        sl = r["job"]["part"].get("islice")
+                        if sl:
+                            i = sl[0] + sl[1] * i
+                        pt = []
+                        for d in dims:
+                            pt.append(d[i % len(d)])
+                            i //= len(d)
+                        rec["point"] = json.loads(json.dumps(pt, default=repr))
+                    except Exception as e:
+                        rec["point"] = "undecodable: %r" % (e,)
+                samples_out.append(rec)
         for k, v in (r.get("nontrivial") or {}).items():
             nontrivial_total[lab + ":" + k] = v
         functions.update(r.get("functions") or [])
